@@ -18,7 +18,7 @@ from . import invariants, struct
 from .model import ForestModel
 from .ops import exec_op
 from .struct import Result, Violation, apply_op, expect_of, gen_op, stable_hash
-from .world import FAMILY, LINK_CLASSES, Watchdog, World
+from .world import ACTIVE, FAMILY, LINK_CLASSES, Watchdog, World
 
 KNOWN_OPEN = set()
 BOOKKEEPING = ("_NodeMixin__parent", "_NodeMixin__children", "_LightNodeMixin__parent", "_LightNodeMixin__children")
@@ -429,6 +429,8 @@ def run(cfg, ops=None, rng=None):
                 ph = plan[step]
                 if ph == "S":
                     op = {"op": "snapshot", "n": rng.randrange(len(model)), "method": rng.choice(cfg["methods"])}
+                    if rng.random() < 0.4:
+                        op["ro"] = True  # a read-only tree: every notification hook raises while the copy is taken
                 else:
                     side = "B" if ph == "B" else "A"
                     m = copy_model if side == "B" else model
@@ -463,8 +465,18 @@ def run(cfg, ops=None, rng=None):
                     # an ordinary program has usually looked at its tree before it saves it
                     for nd in world.nodes[:: max(1, len(world.nodes) // 4)]:
                         nd.size, nd.height, nd.depth, nd.path, nd.leaves
+                if op.get("ro"):
+                    # copying is not a tree modification: a class whose hooks veto every change (the documented
+                    # read-only pattern) can still be copied - no hook may run, on the originals or on the copies
+                    world.begin_op({"persist": [[None, None, "SimRuntime"]]})
+                    ACTIVE[0] = world
+                    res.bump("snapshots_of_read_only_trees")
                 try:
-                    data, centry = take_snapshot(world.nodes[entry], op["method"])
+                    try:
+                        data, centry = take_snapshot(world.nodes[entry], op["method"])
+                    finally:
+                        ACTIVE[0] = None
+                        world.begin_op(None)
                 except RecursionError:
                     res.bump("snapshot_recursion")
                     step += 1
